@@ -20,6 +20,22 @@ NA = {
 }
 
 CHECKS = {
+    "C01": dict(
+        technique="guard-fact dataflow (cursor invariant, bounded reads), escape analysis of the matcher slice in both modes, "
+                  "marker dataflow over all paths (trailing check / sweep dominance), flag dataflow, guard conditions evaluated at boundary points",
+        text="Partial: necessary structural conditions of the content-model equivalence are decided over all paths of the matcher "
+             "slice; the language equivalence of the greedy matcher itself is not decided (it would need the matcher to be run).",
+        note="relies on C10's table-shape check in the same run (D-SPEC); occurrence guards are evaluated on boundary points, "
+             "the greedy strategy is not analysed",
+        ref="DESIGN.md section 3, C01"),
+    "C02": dict(
+        technique="dispatch/table set comparison, arm-to-checker kind agreement by call-graph reachability of parse primitives, "
+                  "escape analysis, abstract evaluation of reject conditions over {boundaries, +-inf, NaN} with constants "
+                  "propagated from the dispatch arm",
+        text="Partial: dispatch exhaustiveness, checker totality in both modes, error-code existence, and the range/NaN/infinity "
+             "and mixed-content verdicts are decided; lexical acceptance of the Python/rfc3986 parsers is not.",
+        note="a value is represented by the float it parses to; parser leniency is outside the claim (the property leaves it unspecified)",
+        ref="DESIGN.md section 3, C02"),
     "C04": dict(technique="two-mode exception-escape (effect) analysis over the call graph with a partial-operation ledger and guard facts; raise/append pairing; mode-independence check", text="An effect analysis, sound up to the listed assumptions, for \"no other exception type escapes\" and the shape of collected errors: all paths of all functions reachable from the three validation entry points, in both modes.", note="assumed-total externals are listed in the evidence; termination of the choice loop is a paper argument; RecursionError/MemoryError outside the claim", ref="DESIGN.md section 3, C04"),
     "C10": dict(
         technique="exhaustive static enumeration of the shipped tables (AST constant folding of node_mappings/names, "
